@@ -14,6 +14,6 @@ rsync -a --exclude .git --exclude .build --exclude .work --exclude evidence --ex
 ( cd $D/verif && VERIF_REPO=$D/repo ./check $ID $TIER > $LOG 2>&1; echo "exit=$?" >> $LOG )
 git -C /repo worktree remove --force $D/repo; git -C /repo worktree prune
 rm -rf $D
-NV=$(grep -c '^VIOLATION' $LOG)
-SIGS=$(grep -o 'signature "[^"]*"\|signature: .*' $LOG | sed 's/signature[: ]*//; s/"//g' | sort | uniq -c | sort -rn | head -3 | awk '{$1=""; print}' | tr '\n' ';' | cut -c1-160)
+NV=$(grep -a -c '^VIOLATION' $LOG)
+SIGS=$(grep -a -o 'signature "[^"]*"\|signature: .*' $LOG | sed 's/signature[: ]*//; s/"//g' | sort | uniq -c | sort -rn | head -3 | awk '{$1=""; print}' | tr '\n' ';' | cut -c1-160)
 echo "$NAME $ID $(tail -1 $LOG) violations=$NV sigs=$SIGS"
